@@ -366,3 +366,182 @@ Theorem C15_source_sex_score : forall x_lr y_lr,
   score_of x_lr y_lr == fst (fn_sex_score x_lr (val_of y_lr) (some_of y_lr)) /\
   is_xy_of (score_of x_lr y_lr) = snd (fn_sex_score x_lr (val_of y_lr) (some_of y_lr)).
 Proof. exact fn_sex_score_eq. Qed.
+
+(* ============================================================================================== *)
+(* chromosomal sex under BOUNDED noise: the deterministic core of "sex inferred right for samples whose chrX / chrY bins
+   sit at the expected levels with bin noise up to sd 0.3 and at least 40 chrX bins".
+
+   Which decisions of compare_sex_chromosomes depend on what (Model/Sex.v lr_of / score_of / is_xy_of, tied to the source
+   by C15_source_compare_chrom / C15_source_sex_score):
+     - per chromosome (X; Y when it has bins) the "maleness" ratio is female_stat / max(male_stat, 0.01) when BOTH median
+       tests yield a statistic -- the only place the oracle (scipy's G statistic of Mood's test) enters -- and otherwise
+       f_diff / max(m_diff, 0.01), the two |median(autosomes) - median(shifted chromosome)| (weighted medians when the
+       table has weights): medians only;
+     - whether a test yields a statistic (ValueError: an empty row / column of the contingency table; stat == 0 with a
+       0 in the table) depends on the exact contingency table and, for the second rule, on the oracle being 0;
+     - score = X ratio (times the Y ratio when chrY has bins), is_xy = score > 1, guess_xx = not is_xy,
+       do_sex label, shift_xx: arithmetic on the above. *)
+From CNV Require Import Proofs.SexNoise.
+From Coq Require Import Qabs.
+
+(* the median of values within eps of a level is within eps of it (the 1-Lipschitz fact, from QNumLemmas.median_bounds),
+   and so is descriptives.weighted_median for any non-negative weights (from C19's range lemma) *)
+Theorem C15_median_near : forall eps c l, l <> [] -> (forall x, In x l -> near eps c x) -> near eps c (median l).
+Proof. exact median_near. Qed.
+
+Theorem C15_weighted_median_near : forall eps c a w, a <> [] -> length w = length a -> (forall x, In x w -> 0 <= x) ->
+  (forall x, In x a -> near eps c x) -> near eps c (wmed a w).
+Proof. exact wmed_near. Qed.
+
+(* both medians move with a shift of the values, so the two differences compare_to_auto computes are
+   |A - (V + female_shift)| and |A - (V + male_shift)| for the centre A of the autosomes and V of the chromosome *)
+Theorem C15_med_diff_shift : forall auto_l auto_w vals w s, vals <> [] -> ok_weights vals w ->
+  med_diff auto_l auto_w (map (fun x => qadd x s) vals) w ==
+  Qabs (centre_a auto_l auto_w w - (centre_v vals auto_w w + s)).
+Proof. exact med_diff_shift. Qed.
+
+(* THE THEOREM.  For every oracle gstat, every eps < 1/4, every reference sex, PAR build (or none), with or without chrY
+   bins, with or without weights: a sample whose autosomal bins are all within eps of a level a, whose chrX bins are
+   within eps of a + x_offset (0 / +1 / -1 by sex and reference) and whose chrY bins are within eps of a (male) or at or
+   below a - 3 + eps (female: "deep negative") is called by its true sex -- provided the oracle meets the contract
+   [sex_contract] AT THAT SAMPLE: whenever both median tests of a chromosome yield statistics f (female shift) and
+   m (male shift), both are non-negative, the hypothesis whose shifted chromosome median is CLOSER to the autosomes'
+   (smaller difference of medians as compare_to_auto computes it) has the SMALLER statistic -- f <= m when the female
+   shift is the closer one (equality does occur: a female sample's chrY is below the autosomes under either shift, the
+   two tests see the same table), m < f when the male shift is, and then f also exceeds the floor 0.01 of the
+   denominator.  The contract asks nothing when a test yields no
+   statistic.  1/4 because the levels are 1 apart: the centres are within eps of their levels, so the aligned shift
+   leaves a difference of medians of at most 2 eps and the other one of at least 1 - 2 eps. *)
+Theorem C15_sex_bounded_noise : forall (gstat : mtable -> Q) eps a female hap build t,
+  eps < 1 # 4 -> bounded_noise eps a female hap build t -> sex_contract gstat hap build t ->
+  sex_decision gstat hap build t = Some (negb female) /\
+  guess_xx gstat hap build t = Some female /\
+  fst (do_sex_row gstat hap build t) = (if female then "Female" else "Male")%string.
+Proof. exact bounded_noise_all. Qed.
+
+(* the contract, spelled out (one chromosome: autosomal values, chromosome values, their weights, the two shifts) *)
+Theorem C15_sex_contract_def : forall gstat auto_l auto_w vals w fs ms,
+  stat_contract gstat auto_l auto_w vals w fs ms <->
+  (forall f m,
+     mood_stat gstat auto_l (map (fun x => qadd x fs) vals) = Some f ->
+     mood_stat gstat auto_l (map (fun x => qadd x ms) vals) = Some m ->
+     0 <= f /\ 0 <= m /\
+     (med_diff auto_l auto_w (map (fun x => qadd x fs) vals) w < med_diff auto_l auto_w (map (fun x => qadd x ms) vals) w ->
+      f <= m) /\
+     (med_diff auto_l auto_w (map (fun x => qadd x ms) vals) w < med_diff auto_l auto_w (map (fun x => qadd x fs) vals) w ->
+      m < f /\ lr_denominator_floor < f)).
+Proof. exact stat_contract_def. Qed.
+
+(* on the route where the oracle returns no statistic (for each chromosome at least one of the two tests has none) the
+   decision rests on medians only and NO contract is needed *)
+Theorem C15_sex_bounded_noise_nostat : forall (gstat : mtable -> Q) eps a female hap build t,
+  eps < 1 # 4 -> bounded_noise eps a female hap build t -> sex_stat_absent gstat hap build t ->
+  sex_decision gstat hap build t = Some (negb female) /\
+  guess_xx gstat hap build t = Some female /\
+  fst (do_sex_row gstat hap build t) = (if female then "Female" else "Male")%string.
+Proof. exact bounded_noise_nostat. Qed.
+
+(* what the decision really rests on: only the CENTRES (median, or weighted median when the table has weights) of the
+   autosomal, chrX and chrY bins need be within eps of their levels; single bins may lie anywhere.  This is the form
+   that speaks about Gaussian noise of sd 0.3: single bins leave the band, the median of 40 or more of them hardly does *)
+Theorem C15_sex_centred_noise : forall (gstat : mtable -> Q) eps a female hap build t,
+  eps < 1 # 4 -> centred_noise (sex_centre t) eps a female hap build t -> sex_contract gstat hap build t ->
+  sex_decision gstat hap build t = Some (negb female) /\
+  guess_xx gstat hap build t = Some female /\
+  fst (do_sex_row gstat hap build t) = (if female then "Female" else "Male")%string.
+Proof. exact centred_noise_all. Qed.
+
+Theorem C15_bounded_is_centred : forall eps a female hap build t,
+  bounded_noise eps a female hap build t -> centred_noise (sex_centre t) eps a female hap build t.
+Proof. exact bounded_is_centred. Qed.
+
+(* the hypotheses as executable tests (run by the harness on every generated sample, fed with scipy's statistics):
+   a sample that passes [noise_check] is under the theorem *)
+Theorem C15_sex_noise_check : forall gstat eps a female hap build t,
+  noise_check gstat eps a female hap build t = true ->
+  sex_decision gstat hap build t = Some (negb female) /\
+  guess_xx gstat hap build t = Some female /\
+  fst (do_sex_row gstat hap build t) = (if female then "Female" else "Male")%string.
+Proof. exact noise_check_sound. Qed.
+
+Theorem C15_noise_tests_sound : forall gstat eps a female hap build t,
+  (bounded_noise_b eps a female hap build t = true -> bounded_noise eps a female hap build t) /\
+  (centred_noise_b (sex_centre t) eps a female hap build t = true -> centred_noise (sex_centre t) eps a female hap build t) /\
+  (sex_contract_x_b gstat hap build t = true -> sex_contract_y_b gstat build t = true -> sex_contract gstat hap build t) /\
+  (sex_route_x gstat hap build t = 0%Z -> sex_route_y gstat build t = 0%Z -> sex_stat_absent gstat hap build t).
+Proof. exact noise_tests_sound. Qed.
+
+(* the entry c15_noise_check evaluates contract and route of a chromosome in one pass; it is the pair of the two tests *)
+Theorem C15_noise_entry_tie : forall gstat hap build t,
+  sex_contract_route_x gstat hap build t = (sex_contract_x_b gstat hap build t, sex_route_x gstat hap build t) /\
+  sex_contract_route_y gstat build t = (sex_contract_y_b gstat build t, sex_route_y gstat build t).
+Proof. exact sex_contract_route_eq. Qed.
+
+(* shift_xx then brings chrX to the autosomal level: every chrX bin (outside PAR-X) of the result is within eps of the
+   AUTOSOMAL level a, the autosomal bins are untouched, so chrX is within 2 eps of every autosomal bin -- with the true
+   sex given, and equally when shift_xx guesses it (is_xx=None) *)
+Theorem C15_shift_xx_bounded_noise : forall eps a female hap build t,
+  bounded_noise eps a female hap build t ->
+  forall b', In b' (shift_xx hap (Some female) build t) ->
+    (chr_x_filter t build b' = true -> near eps a (b_log2 b')) /\
+    (auto_sel t build b' = true -> near eps a (b_log2 b')).
+Proof. exact bounded_shift_xx. Qed.
+
+Theorem C15_shift_xx_bounded_noise_guessed : forall (gstat : mtable -> Q) eps a female hap build t,
+  eps < 1 # 4 -> bounded_noise eps a female hap build t -> sex_contract gstat hap build t ->
+  shift_xx hap (guess_xx gstat hap build t) build t = shift_xx hap (Some female) build t /\
+  (forall b', In b' (shift_xx hap (guess_xx gstat hap build t) build t) ->
+     (chr_x_filter t build b' = true -> near eps a (b_log2 b')) /\
+     (auto_sel t build b' = true -> near eps a (b_log2 b'))) /\
+  (forall bx ba, In bx (shift_xx hap (guess_xx gstat hap build t) build t) ->
+     In ba (shift_xx hap (guess_xx gstat hap build t) build t) ->
+     chr_x_filter t build bx = true -> auto_sel t build ba = true -> Qabs (b_log2 bx - b_log2 ba) <= 2 * eps).
+Proof. exact bounded_shift_xx_guessed. Qed.
+
+(* THE PROPERTY'S SETTING, as far as a deterministic statement goes: all bins within 0.24 of their level => the true sex
+   from compare_sex_chromosomes / guess_xx / the `sex` report, and shift_xx leaves chrX within 0.48 of every autosomal
+   bin -- any number of chrX bins (the "at least 40" of the text is not needed for bounded noise), any reference sex, PAR
+   build, with or without chrY, with or without weights, for every oracle within the contract at the sample.
+   WHAT REMAINS STATISTICAL: (i) Gaussian noise is not bounded -- at sd s a bin leaves the 0.24 band with probability
+   2(1 - Phi(0.24/s)) (about 0.42 at sd 0.3, 1.6e-2 at sd 0.1, below 1e-5 at sd 0.05), so for sd above ~0.06 some bin of
+   a few hundred does; C15_sex_centred_noise then still applies as long as the three (weighted) medians stay within 1/4 --
+   for 40 or more chrX bins at sd 0.3 the median has sd ~ 0.06, a 4-sigma event -- and that tail is only sampled;
+   (ii) that scipy's G statistic meets the contract at the sample: it does NOT for every bounded-noise sample
+   (C15_sex_contract_needed), it does for typical ones; the harness evaluates the contract with scipy's statistics on
+   every generated sample and reports how often it held. *)
+Theorem C15_sex_bounded_noise_corollary : forall (gstat : mtable -> Q) a female hap build t,
+  bounded_noise (24 # 100) a female hap build t -> sex_contract gstat hap build t ->
+  sex_decision gstat hap build t = Some (negb female) /\
+  guess_xx gstat hap build t = Some female /\
+  fst (do_sex_row gstat hap build t) = (if female then "Female" else "Male")%string /\
+  (forall bx ba, In bx (shift_xx hap (guess_xx gstat hap build t) build t) ->
+     In ba (shift_xx hap (guess_xx gstat hap build t) build t) ->
+     chr_x_filter t build bx = true -> auto_sel t build ba = true -> Qabs (b_log2 bx - b_log2 ba) <= 48 # 100).
+Proof. exact bounded_noise_024. Qed.
+
+(* the contract is satisfiable on the route WITH statistics: ten bins of a male sample (female reference) within 1/8 of
+   their levels, Pearson's chi-square as the oracle; both tests of chrX yield a statistic, the contract holds *)
+Theorem C15_sex_contract_satisfiable :
+  bounded_noise (1 # 8) 0 false false None contract_witness /\
+  sex_route_x pearson false None contract_witness = 1%Z /\
+  sex_contract pearson false None contract_witness /\
+  sex_decision pearson false None contract_witness = Some true.
+Proof. exact contract_satisfiable. Qed.
+
+(* ... and it cannot be dropped: a male sample within 1/16 of its levels (autosomal bins all slightly high, chrX bins all
+   slightly low) for which both shifts produce the SAME contingency table (4, 1, 0, 5); every oracle that is a function
+   of the table and non-zero there gives f = m, ratio at most 1: called female.  The contract fails at that sample. *)
+Theorem C15_sex_contract_needed :
+  bounded_noise (1 # 16) 0 false false None adversarial_witness /\
+  forall gstat : mtable -> Q, ~ gstat (4, 1, 0, 5)%Z == 0 ->
+    sex_decision gstat false None adversarial_witness = Some false /\
+    ~ sex_contract gstat false None adversarial_witness.
+Proof. exact contract_needed. Qed.
+
+(* ... and 1/4 is sharp: 3 autosomal bins at -1/4, 40 chrX bins of a male sample (female reference) at -1 + 1/4; no test
+   yields a statistic, both differences of medians are 1/2, the ratio is exactly 1, not above 1: called female by every
+   oracle *)
+Theorem C15_sex_quarter_is_sharp :
+  bounded_noise (1 # 4) 0 false false None quarter_witness /\
+  forall gstat : mtable -> Q, sex_decision gstat false None quarter_witness = Some false.
+Proof. exact quarter_is_sharp. Qed.
